@@ -144,8 +144,10 @@ def nopanic(F, R, cg):
                 R.ob('C02.nopanic', key, True, 'PROVEN: unwrap of NonZero::new(non-zero literal)', s['loc'], status='proven')
                 continue
             ent = None
+            # a reviewed site that moved into a closure of its function (`opt.map(|x| a + x)`) is still that site
+            ptop = re.sub(r'(::\{(closure|inl)#\d+\})+$', '', p)
             for i, (fre, kre, wre, cls, reason, cnt) in enumerate(TABLE):
-                if re.search(fre, p) and re.fullmatch(kre, s['kind']) and re.search(wre, s['what']):
+                if (re.search(fre, p) or re.search(fre, ptop)) and re.fullmatch(kre, s['kind']) and re.search(wre, s['what']):
                     ent = (i, cls, reason, cnt)
                     break
             if ent is None:
@@ -153,9 +155,9 @@ def nopanic(F, R, cg):
                     ' <- '.join(F.chain(cg, p)[-3:]), s['kind'], s['what'], (' (%s)' % proofs[s['block']][1]) if s['kind'] == 'consume' and s['block'] in proofs else ''), s['loc'])
                 continue
             i, cls, reason, cnt = ent
-            used[(i, p)] += 1
-            if used[(i, p)] > cnt:
-                R.ob('C02.nopanic', key + '|extra', False, 'more sites of this shape than reviewed (%d > %d): %s' % (used[(i, p)], cnt, reason), s['loc'])
+            used[(i, ptop)] += 1
+            if used[(i, ptop)] > cnt:
+                R.ob('C02.nopanic', key + '|extra', False, 'more sites of this shape than reviewed (%d > %d): %s' % (used[(i, ptop)], cnt, reason), s['loc'])
                 continue
             if cls == 'MIN-IDIOM':
                 ok = min_idiom(b, s)
